@@ -102,8 +102,11 @@ status_t SLIPFramedDataMessageIOGateway :: PopNextOutgoingMessage(MessageRef & r
    // slipMsg will be like (rawMsg), except that we've slip-encoded each data item
    const uint8 * buf;
    uint32 numBytes;
-   for (int32 i=0; rawMsg()->FindData(PR_NAME_DATA_CHUNKS, B_ANY_TYPE, i, (const void **) &buf, &numBytes).IsOK(); i++)
+   const uint32 numChunks = rawMsg()->GetNumValuesInName(PR_NAME_DATA_CHUNKS);
+   for (uint32 i=0; i<numChunks; i++)
    {
+      if (rawMsg()->FindData(PR_NAME_DATA_CHUNKS, B_ANY_TYPE, i, (const void **) &buf, &numBytes).IsError()) continue;  // eg a zero-length chunk:  nothing to frame, but the chunks after it still need to go out
+
       ByteBufferRef slipData = SLIPEncodeBytes(buf, numBytes);
       MRETURN_ON_ERROR(slipData);
       MRETURN_ON_ERROR(slipMsg()->AddFlat(PR_NAME_DATA_CHUNKS, slipData));
